@@ -104,7 +104,7 @@ static unsigned prog_max_reg(const vj::Value& prog) {
     else if (op == "jcci") upd(2);
     else if (op == "setcc") { upd(2); upd(3); upd(4); }
     else if (op == "cmov") { upd(2); upd(3); upd(4); upd(5); }
-    else if (op == "jtab") upd(1);
+    else if (op == "jtab" || op == "jtabx") upd(1);
     else if (op == "call2") { upd(1); for (auto& a : I[2].arr) if (a.i() > mx) mx = a.i(); }
     else if (op == "label" || op == "jmp" || op == "vmov" || op == "vxor" || op == "vor" || op == "vand" || op == "vinitall") {}
     else if (op == "vset") upd(2);
@@ -132,6 +132,13 @@ static x86::CondCode x86_cc(const std::string& c) {
 
 struct JTab { Label table; std::vector<Label> targets; };
 
+// targets of UN-annotated indirect jumps (the Compiler is not told; the Leg 1 translator needs the real successors)
+static std::map<const BaseNode*, std::vector<uint32_t>> g_jump_hints;
+
+// an indirect jump through a table of absolute label addresses (language instruction "jtabx")
+template<typename GpT>
+struct JTabX { Label table; std::vector<Label> targets; GpT base; std::string form; bool ann = true; bool on_stack = false; };
+
 // Builds one function `uint32_t f(uint32_t in0, uint32_t in1, uint32_t* out)`.  Returns the FuncNode.
 static FuncNode* build_x86(x86::Compiler& cc, const Prog& p) {
   const vj::Value& prog = *p.prog;
@@ -156,6 +163,34 @@ static FuncNode* build_x86(x86::Compiler& cc, const Prog& p) {
   fn->set_arg(2, outp);
   auto mask = [&](const x86::Gp& r) { cc.and_(r, 0xFFFF); };
   auto outcell = [&](long long k) { return x86::dword_ptr(outp, int32_t(4 * k)); };
+  // jtabx: table bases are loaded into long-lived registers at function entry
+  const uint32_t W = cc.is_64bit() ? 8 : 4, WS = cc.is_64bit() ? 3 : 2;
+  std::vector<JTabX<x86::Gp>> xtabs;
+  for (auto& I : prog.arr) {
+    if (I[0].s() != "jtabx") continue;
+    JTabX<x86::Gp> jt;
+    jt.table = cc.new_label();
+    for (auto& l : I[2].arr) jt.targets.push_back(L(l.i()));
+    jt.form = I[3].s();
+    jt.ann = I[4].b;
+    if (jt.form == "mli" && cc.is_64bit()) jt.form = "mbi";            // [label + index*W] only exists in 32-bit mode
+    if (jt.form != "mli") {
+      jt.base = cc.new_gp_ptr("jx_base");
+      if (jt.form == "mstk") {
+        x86::Mem st = cc.new_stack(4 * W, W, "jx_tab");
+        x86::Gp t = cc.new_gp_ptr("jx_t");
+        for (size_t k = 0; k < 4; k++) { cc.lea(t, x86::ptr(jt.targets[k])); x86::Mem m = st.clone_adjusted(int64_t(k * W)); m.set_size(W); cc.mov(m, t); }
+        cc.lea(jt.base, st);
+        jt.on_stack = true;
+      }
+      else {
+        cc.lea(jt.base, x86::ptr(jt.table));
+        if (jt.form == "mbid") cc.sub(jt.base, 16);
+      }
+    }
+    xtabs.push_back(jt);
+  }
+  size_t xtab_next = 0;
   auto stkcell = [&](long long k) { x86::Mem m = stk.clone_adjusted(4 * k); m.set_size(4); return m; };
 
   for (auto& I : prog.arr) {
@@ -199,6 +234,30 @@ static FuncNode* build_x86(x86::Compiler& cc, const Prog& p) {
       for (auto& l : I[2].arr) { jt.targets.push_back(L(l.i())); ann->add_label(L(l.i())); }
       cc.jmp(tgt, ann);
       tabs.push_back(jt);
+    }
+    else if (op == "jtabx") {
+      JTabX<x86::Gp>& jt = xtabs[xtab_next++];
+      x86::Gp idx = cc.is_64bit() ? R(1).r64() : R(1);          // the program register itself is the index (value < 4)
+      JumpAnnotation* ann = nullptr;
+      std::vector<uint32_t> ids;
+      for (auto& t : jt.targets) ids.push_back(t.id());
+      if (jt.ann) { ann = cc.new_jump_annotation(); for (auto& t : jt.targets) ann->add_label(t); }
+      auto sized = [&](x86::Mem m) { m.set_size(W); return m; };
+      if (jt.form == "reg") {
+        x86::Gp tgt = cc.new_gp_ptr("jx_tgt");
+        cc.mov(tgt, sized(x86::ptr(jt.base, idx, WS)));
+        if (ann) cc.jmp(tgt, ann); else cc.jmp(tgt);
+      }
+      else if (jt.form == "mb") {
+        x86::Gp addr = cc.new_gp_ptr("jx_addr");
+        cc.lea(addr, x86::ptr(jt.base, idx, WS));
+        if (ann) cc.jmp(sized(x86::ptr(addr)), ann); else cc.jmp(sized(x86::ptr(addr)));
+      }
+      else {
+        x86::Mem m = jt.form == "mli" ? x86::ptr(jt.table, idx, WS) : jt.form == "mbid" ? x86::ptr(jt.base, idx, WS, 16) : x86::ptr(jt.base, idx, WS);
+        if (ann) cc.jmp(sized(m), ann); else cc.jmp(sized(m));
+      }
+      if (!ann) g_jump_hints[cc.cursor()] = ids;
     }
     else if (op == "setcc") { cc.cmp(R(2), R(3)); cc.set(x86_cc(I[1].s()), R(4).r8()); }
     else if (op == "cmov") { cc.cmp(R(2), R(3)); cc.cmov(x86_cc(I[1].s()), R(4), R(5)); }
@@ -285,6 +344,12 @@ static FuncNode* build_x86(x86::Compiler& cc, const Prog& p) {
   for (auto& jt : tabs) {
     cc.bind(jt.table);
     for (auto& t : jt.targets) cc.embed_label_delta(t, jt.table, 4);
+  }
+  for (auto& jt : xtabs) {
+    if (jt.on_stack) continue;
+    cc.align(AlignMode::kData, W);
+    cc.bind(jt.table);
+    for (auto& t : jt.targets) cc.embed_label(t);
   }
   return fn;
 }
@@ -456,6 +521,7 @@ struct Recorder {
     for (const Operand& op : in->operands()) operand(w, op);
     w.endArr();
     if (in->has_extra_reg()) { w.key("extra"); reg(w, in->extra_reg().type(), in->extra_reg().id()); }
+    { auto h = g_jump_hints.find(in); if (h != g_jump_hints.end()) { w.key("annu").beginArr(); for (uint32_t l : h->second) w.val((long long)l); w.endArr(); } }
     InstRWInfo rw;
     Error e = InstAPI::query_rw_info(arch, in->baseInst(), in->operands().data(), in->op_count(), &rw);
     if (e == Error::kOk) {
@@ -940,6 +1006,29 @@ static FuncNode* build_a64(a64::Compiler& cc, const Prog& p) {
   fn->set_arg(2, outp);
   auto mask = [&](const a64::Gp& r) { cc.and_(r, r, 0xFFFF); };
   auto tmp_imm = [&](long long imm) { a64::Gp t = cc.new_gp32("imm"); cc.mov(t, imm); return t; };
+  std::vector<JTabX<a64::Gp>> xtabs;
+  for (auto& I : prog.arr) {
+    if (I[0].s() != "jtabx") continue;
+    JTabX<a64::Gp> jt;
+    jt.table = cc.new_label();
+    for (auto& l : I[2].arr) jt.targets.push_back(L(l.i()));
+    jt.form = I[3].s();
+    jt.ann = I[4].b;
+    jt.base = cc.new_gp_ptr("jx_base");
+    if (jt.form == "mstk") {
+      a64::Mem st = cc.new_stack(32, 8, "jx_tab");
+      a64::Gp t = cc.new_gp_ptr("jx_t");
+      for (size_t k = 0; k < 4; k++) { cc.adr(t, jt.targets[k]); cc.str(t, st.clone_adjusted(int64_t(k * 8))); }
+      cc.load_address_of(jt.base, st);
+      jt.on_stack = true;
+    }
+    else {
+      cc.adr(jt.base, jt.table);
+      if (jt.form == "mbid") cc.sub(jt.base, jt.base, 16);
+    }
+    xtabs.push_back(jt);
+  }
+  size_t xtab_next = 0;
   auto stkcell = [&](long long k) { return stk.clone_adjusted(4 * k); };
 
   for (auto& I : prog.arr) {
@@ -982,6 +1071,17 @@ static FuncNode* build_a64(a64::Compiler& cc, const Prog& p) {
       for (auto& l : I[2].arr) { jt.targets.push_back(L(l.i())); ann->add_label(L(l.i())); }
       cc.br(tgt, ann);
       tabs.push_back(jt);
+    }
+    else if (op == "jtabx") {
+      // br reg, the address loaded from the table through two virtual registers (long-lived base, program register as index)
+      JTabX<a64::Gp>& jt = xtabs[xtab_next++];
+      a64::Gp tgt = cc.new_gp_ptr("jx_tgt");
+      std::vector<uint32_t> ids;
+      for (auto& t : jt.targets) ids.push_back(t.id());
+      if (jt.form == "mbid") { a64::Gp b2 = cc.new_gp_ptr("jx_b2"); cc.add(b2, jt.base, 16); cc.ldr(tgt, a64::ptr(b2, R(1), a64::uxtw(3))); }
+      else cc.ldr(tgt, a64::ptr(jt.base, R(1), a64::uxtw(3)));
+      if (jt.ann) { JumpAnnotation* ann = cc.new_jump_annotation(); for (auto& t : jt.targets) ann->add_label(t); cc.br(tgt, ann); }
+      else { cc.br(tgt); g_jump_hints[cc.cursor()] = ids; }
     }
     else if (op == "setcc") {
       a64::Gp t = cc.new_gp32("cs");
@@ -1087,6 +1187,12 @@ static FuncNode* build_a64(a64::Compiler& cc, const Prog& p) {
   for (auto& jt : tabs) {
     cc.bind(jt.table);
     for (auto& t : jt.targets) cc.embed_label_delta(t, jt.table, 4);
+  }
+  for (auto& jt : xtabs) {
+    if (jt.on_stack) continue;
+    cc.align(AlignMode::kData, 8);
+    cc.bind(jt.table);
+    for (auto& t : jt.targets) cc.embed_label(t);
   }
   return fn;
 }
